@@ -249,12 +249,13 @@ def run_property(pid: str, tier: str) -> int:
     nontrivial = 0
     evaluations = 0
 
+    _known_sigs = {f["signature"] for f in load_findings() if f["property"] == pid and f.get("status") == "known"}
     ctxm = mp.get_context("fork")
     with ctxm.Pool(NPROC) as pool:
         for jidx, job in enumerate(jobs):
             if only and job.name != only:
                 continue
-            if failures and os.environ.get("VERIF_STOP_ON_FAIL"):
+            if os.environ.get("VERIF_STOP_ON_FAIL") and any(sg not in _known_sigs for sg in failures):
                 # development runs against seeded changes only: one failing job is enough to know the change is caught
                 exhaustive_all = False
                 continue
